@@ -57,6 +57,7 @@ pub fn generate(r: &mut Rng, tier: Tier, run_index_hint: u64) -> Scenario {
         _ => {}
     }
     // content faults: >= 40 % of runs are fault-free controls
+    let before_faults = world.clone();
     if r.chance(3, 5) {
         let n = 1 + r.usize(2);
         for _ in 0..n {
@@ -68,6 +69,14 @@ pub fn generate(r: &mut Rng, tier: Tier, run_index_hint: u64) -> Scenario {
                 content.push((kind.to_string(), p));
             }
         }
+    }
+    // The analyzer is roughly cubic in the number of instructions it is handed, and a replayed
+    // block that contains include directives multiplies whole files: keep what the parser will see
+    // below ~1500 lines, where a terminating run still fits well inside the CPU limits.
+    if crate::world::paste(&world, &[]).len() > 1500 {
+        world = before_faults;
+        content.clear();
+        note.push_str("faults-dropped(too-large) ");
     }
     let n_imports = world.include_directives() + 1;
     let mut rfaults = Vec::new();
